@@ -35,8 +35,9 @@ def run(tier, seed, replay=None):
         for _ in range(npair):
             pd = rng.choice([1, 1, 2, 2, 3])
             kinds = ['open', 'open', 'open', 'periodic']
-            a = O.gen_obj(rng, pardim=pd, kinds=kinds, nint_max=2, pmax={1: 4, 2: 4, 3: 3}[pd])
-            b = O.gen_obj(rng, pardim=pd, kinds=kinds, nint_max=2, pmax={1: 4, 2: 4, 3: 3}[pd])
+            bigp = rng.random() < 0.6
+            a = O.gen_obj(rng, pardim=pd, kinds=kinds, nint_max=2, pmax={1: 4, 2: 4, 3: 3}[pd], big_periodic=bigp)
+            b = O.gen_obj(rng, pardim=pd, kinds=kinds, nint_max=2, pmax={1: 4, 2: 4, 3: 3}[pd], big_periodic=bigp)
             todo.append((a, b, None))
     for sa, sb, forced in todo:
         pd = len(sa['bases'])
@@ -146,7 +147,7 @@ def run(tier, seed, replay=None):
                 if len(x['knots']) != len(y['knots']) or any(abs(float(s - t)) > 1e-9 for s, t in zip(x['knots'], y['knots'])):
                     V.failure(dict(case, what='L2: direction %d: knot vectors differ' % d, knots1=[str(t) for t in x['knots']], knots2=[str(t) for t in y['knots']]))
                     continue
-                if O.domain(x) != (Fr(0), Fr(1)):
+                if abs(float(O.domain(x)[0])) > 1e-12 or abs(float(O.domain(x)[1]) - 1) > 1e-12:
                     V.failure(dict(case, what='L2: direction %d: domain is %s, not [0,1]' % (d, [str(t) for t in O.domain(x)])))
         for which, (l_a, l_b, pts) in zip(('first', 'second'), e['ev']):
             va = O.parse_eval(outs[l_a])
